@@ -62,11 +62,12 @@ theorem ods_text_no_panic (evs : List XmlText.Ev) (x : String) : XmlText.odsCell
 
 /-! ## number formats -/
 
-/-- `detect_custom_number_format`: no panic on any text with at most 255 `[`.
-    `_partial`: the `u8` counter `brackets += 1` overflows on the 256th unclosed `[`
-    (`Formats.bracket_overflow_witness`; known finding) -/
-theorem number_format_scanner_no_panic_partial (s : List Char) (h : s.count '[' ≤ 255) (msg : String) :
-    Formats.detect s ≠ .panic msg := Formats.scanner_no_panic_partial s h msg
+/-- `detect_custom_number_format` is total: it classifies every text (after the bracket counter became a
+    `usize`, ledger D30-b) -/
+theorem number_format_scanner_total (s : List Char) : ∃ c, Formats.detect s = .ok c := Formats.scanner_total s
+
+theorem number_format_scanner_no_panic (s : List Char) (msg : String) : Formats.detect s ≠ .panic msg :=
+  Formats.scanner_no_panic s msg
 
 /-! ## Range and header-row windowing -/
 
@@ -92,10 +93,22 @@ theorem cfb_chain_total (s : Cfb.Sectors) (start : Nat) (fats : List Nat) (rd : 
 theorem cfb_new_terminates (file : Cfb.Bytes) (len : Nat) : Cfb.new file len ≠ .outOfFuel :=
   Cfb.new_terminates file len
 
-/-- `Cfb::new` on arbitrary bytes: the only panic left is the `to_u32` length assertion on a FAT sector cut by
-    EOF (`_partial`; known finding `panic:calamine::cfb::Cfb::new:assert`) -/
-theorem cfb_new_no_panic_partial (file : Cfb.Bytes) (len : Nat) (m : String) (h : Cfb.new file len = .panic m) :
-    m = "to_u32: assert_eq!(s.len() % 4, 0)" := Cfb.new_no_panic_partial file len m h
+/-- `Cfb::new` on arbitrary bytes never panics (after the `to_u32` repair of the C13 follow-up) -/
+theorem cfb_new_no_panic (file : Cfb.Bytes) (len : Nat) (m : String) : Cfb.new file len ≠ .panic m :=
+  Cfb.new_no_panic file len m
+
+/-- memory: what `Cfb::new` keeps is bounded by the length it is given — at most `len / 4` FAT entries, a mini
+    stream of at most `len` bytes — and every chain read later yields at most `len` bytes -/
+theorem cfb_new_alloc_bound (file : Cfb.Bytes) (len : Nat) (c : Cfb.CfbSt) (rd : Cfb.Bytes)
+    (h : Cfb.new file len = .ok (c, rd)) :
+    c.fats.length ≤ len / 4 ∧ c.mini.data.length ≤ len ∧ c.sectors.limit = len ∧ c.mini.limit = len :=
+  Cfb.new_alloc_bound file len c rd h
+
+theorem cfb_get_stream_alloc_bound (c : Cfb.CfbSt) (name : List Char) (rd : Cfb.Bytes) (len : Nat)
+    (h1 : c.sectors.limit = len) (h2 : c.mini.limit = len) (x : Cfb.Bytes) (c' : Cfb.CfbSt) (rd' : Cfb.Bytes)
+    (h : Cfb.getStream c name rd = .ok (x, c', rd')) :
+    x.length ≤ len ∧ c'.sectors.limit = len ∧ c'.mini.limit = len :=
+  Cfb.getStream_alloc_bound c name rd len h1 h2 x c' rd' h
 
 /-- `get_stream` on arbitrary reader state: no panic, terminates -/
 theorem cfb_get_stream_total (c : Cfb.CfbSt) (name : List Char) (rd : Cfb.Bytes) :
@@ -114,10 +127,19 @@ theorem xls_sst_reader_terminates (s : Biff.Bytes) : Biff.sstFromStream (s.lengt
 
 /-! ## VBA -/
 
-/-- `decompress_stream` on any byte string terminates (three nested loops within their budgets). It can still
-    PANIC on malformed containers (unchecked `s[0]`, copy offset before the buffer): known findings
-    `panic:calamine::cfb::decompress_stream:*`. -/
+/-- `decompress_stream` is total: bytes or an error on every byte string (after the C18 follow-up repaired the
+    unchecked reads, the copy-offset underflow and the signature assertion) -/
+theorem vba_decompress_total (s : Ovba.Bytes) :
+    (∃ b, Ovba.decompress s = .ok b) ∨ (∃ e, Ovba.decompress s = .err e) := Ovba.C18.decompress_total s
+
 theorem vba_decompress_terminates (s : Ovba.Bytes) : Ovba.decompress s ≠ .outOfFuel :=
   Ovba.C18.decompress_never_out_of_fuel s
+
+/-- the `dir` stream walk and `VbaProject::from_cfb` never panic, whatever the streams contain -/
+theorem vba_dir_walk_no_panic (s : Ovba.Bytes) (m : String) : Ovba.dirWalk s ≠ .panic m :=
+  Ovba.C18.dirWalk_no_panic s m
+
+theorem vba_project_no_panic (d : Option Ovba.Bytes) (lookup : Ovba.Bytes → Option Ovba.Bytes) (m : String) :
+    Ovba.project d lookup ≠ .panic m := Ovba.C18.project_no_panic d lookup m
 
 end C06
